@@ -245,6 +245,44 @@ CLAIMED = {
         "points per event and 3 kills per backend, thorough enumerates all points.",
         "DESIGN.md §6 C07",
     ),
+    "C13": (
+        "Lean 4 invariant and refinement theorems over a labelled transition system of the websocket protocol (all schedules of handler, query, notify and sender tasks) + differential correspondence of per-connection transcripts and the subscription registry with the real web.start_client on both backends",
+        "Proof: NostrRelay/Model/Proto.lean is the protocol machine (connect / REQ / CLOSE / EVENT / one notify task / one "
+        "query-task step / one sender step / disconnect as labels; a schedule is any list of labels). Props/ProtoInv.lean "
+        "proves an 19-clause invariant for every reachable state; Props/C13.lean proves for every schedule: at most one "
+        "sentinel (EOSE) per Subscription object in flight or sent (C13_eose_at_most_once), the REQ outcome trichotomy "
+        "NOTICE / immediate EOSE / registered with a fresh query task (C13_req_outcomes), a running query puts its stored "
+        "answer in order and then exactly one sentinel (C13_query_runs_to_eose) and is always enabled until then, the "
+        "sender is enabled while the queue is non-empty, the per-connection limit (C13_limit) and that a refusal at the "
+        "limit leaves registry and query tasks untouched (C13_limit_refusal_intact), CLOSE/replacement remove the entry and "
+        "cancel the task, a cancelled task puts no further event, and after disconnect the connection holds nothing and "
+        "is never sent anything again for any continuation (C13_nothing_after_disconnect). Tie: random and directed "
+        "multi-connection sessions through the real start_client on SQLite and LMDB, the same history run through the "
+        "machine with its settled schedule; frames per connection per message and the registry must agree; the machine's "
+        "abstract inputs (usable, answer, match, accepted) come from an independent reference, not from the implementation.",
+        "Partial: 'is eventually sent' is stated as enabledness + the settled schedule (no fairness in the model); the "
+        "real event loop's interleavings inside one settled step are not enumerated by the check (the theorems quantify "
+        "over them). Trusted: asyncio task/cancel semantics as encoded in the labels; asyncio.Queue FIFO.",
+        "DESIGN.md §6 C13",
+    ),
+    "C05": (
+        "Lean 4 theorems over the protocol transition system (fan-out = registry at acceptance, at most once, own id / own connection, only subscriptions open at acceptance, round completeness; all schedules) and a sandwich theorem for live matching + differential correspondence of check_event and of session transcripts on both backends",
+        "Proof: Props/C05.lean proves for every schedule of the protocol machine: the notify tasks created on acceptance "
+        "are exactly the registered Subscription objects, one each (C05_fanout_exact); no (event, subscription) pair is "
+        "pushed twice (C05_live_at_most_once); every queued or sent item was put by an object the receiving connection "
+        "opened under that very name (C05_delivered_under_own_id); an object not registered at acceptance — closed, "
+        "replaced, disconnected or opened later — is never pushed that event whatever happens next "
+        "(C05_only_open_at_accept); when the round has run every target was evaluated exactly once. Model/Live.lean "
+        "transcribes check_event; C05_live_complete / C05_live_sound prove strict NIP-01 reading => live match => generous "
+        "reading for every filter that states a condition. Tie: real check_event vs liveMatch on generated pairs; fan-out "
+        "sessions on both backends with colliding connection ids, pushes compared with 'once per open matching "
+        "subscription' from a reference registry and matcher, and with the machine; live-vs-stored agreement per filter "
+        "on both backends incl. a validly NIP-26-delegated event and empty tag values. Two defects of check_event were "
+        "repaired (until/since 0, empty tag value); two SQL stored-side disagreements are known findings.",
+        "Partial: the check settles the loop after every message; interleavings are covered by the theorems, not "
+        "enumerated against the implementation. Trusted: asyncio semantics as encoded in the labels.",
+        "DESIGN.md §6 C05",
+    ),
 }
 
 NOT_YET = "not reached yet in this round (model/tie not built); see DESIGN.md §10 staging — no weaker technique is substituted"
